@@ -21,10 +21,10 @@ Levels
     any length, every sample limit (0 included);
   * `jitter`, `jmax`: proved for number types that convert durations exactly (`ExactDur`, holds for
     ℚ); for `f64` the two `Duration::from_secs_f64` results are compared by the harness (±2 ns);
-  * `mean`, `javg` (and the derived average / loss percentages): proved over ℚ to be the two-pass
-    quantities; IEEE ROUNDING IS NOT MODELLED (partial);
-  * `m2` / standard deviation: the property is FALSE for the code as written – see
-    `stddev_partial` and `m2_is_not_the_squared_deviation_sum`.
+  * `mean`, `m2` (variance / standard deviation), `javg` (and the derived average / loss
+    percentages): proved over ℚ to be the two-pass quantities (arithmetic mean, sum of squared
+    deviations, mean jitter); IEEE ROUNDING IS NOT MODELLED (partial), `sqrt` is not modelled:
+    the statement about the standard deviation is `stddev_ms² = m2/(n−1) = sample variance`.
 -/
 namespace TV.Props.C05
 open TV TV.Strat TV.Agg TV.Reagg
@@ -170,25 +170,42 @@ theorem welford_is_two_pass (xs : List Rat) :
       (xs.map fun x => (x - (xs.foldl welfordStep (0, 0, 0)).2.1) * (x - (xs.foldl welfordStep (0, 0, 0)).2.1)).sum :=
   (welford_two_pass xs).2
 
+/-- `m2` (Welford: `delta = x − mean; mean += delta/n; m2 += delta·(x − mean)`) is the sum of squared
+deviations of the round-trip times (ms) from their arithmetic mean: over ℚ, for the hop at any ttl
+after any history, `n · mean = Σ dᵢ` and `m2 = Σ (dᵢ − mean)²`. -/
+theorem welford_m2_two_pass (ms : Nat) (hist : List Round) (t : Nat) :
+    let os := outcomes t hist
+    let h := os.foldl (hopStep (F := Rat) ms) Hop.default
+    ((rtts os).length : Rat) * h.mean = (msOf (rtts os)).sum ∧
+    h.m2 = ((msOf (rtts os)).map fun x => (x - h.mean) * (x - h.mean)).sum :=
+  m2_is_squared_deviation_sum ms (outcomes t hist)
+
+/-- … hence the quantity under the square root of `stddev_ms` (`m2 / (total_recv − 1)`, taken when
+`total_recv > 1`) is the sample variance `Σ (dᵢ − d̄)² / (n − 1)` with `d̄ = Σ dᵢ / n`. -/
+theorem variance_two_pass (ms : Nat) (hist : List Round) (t : Nat)
+    (hn : 1 < (rtts (outcomes t hist)).length) :
+    let os := outcomes t hist
+    let h := os.foldl (hopStep (F := Rat) ms) Hop.default
+    let dbar := (msOf (rtts os)).sum / ((rtts os).length : Rat)
+    h.totalRecv = (rtts os).length ∧
+    h.m2 / ((h.totalRecv - 1 : Nat) : Rat) =
+      ((msOf (rtts os)).map fun x => (x - dbar) * (x - dbar)).sum / (((rtts os).length - 1 : Nat) : Rat) := by
+  intro os h dbar
+  have hne : rtts os ≠ [] := by intro h'; simp [os, h'] at hn
+  have hmean : h.mean = dbar := mean_is_arithmetic_mean ms os hne
+  have hrecv : h.totalRecv = (rtts os).length := by
+    have := congrArg Stats.recv (stats_fold (F := Rat) ms os); simpa [statsOf, reagg] using this
+  refine ⟨hrecv, ?_⟩
+  rw [(m2_is_squared_deviation_sum ms os).2, hrecv]
+  show ((msOf (rtts os)).map fun x => (x - h.mean) * (x - h.mean)).sum / _ = _
+  rw [hmean]
+
 /-
-FULL STATEMENT (false for the code, therefore not proved):
-    m2 = Σ (dᵢ − mean)²     and hence   stddev_ms² · (n − 1) = Σ (dᵢ − mean)²
-The code computes `hop.m2 += (dur_ms - hop.mean) * (dur_ms - hop.mean)` *after* `hop.mean` has been
-updated (state.rs:637-638), i.e. both factors use the new mean, where Welford's algorithm uses the
-old mean in one factor.  What is proved instead:
+Historical note: before the repair of state.rs:637-638 the code updated `m2` with the *new* mean in
+both factors (`m2 += (x − mean_new)²`); on the series 1 ms, 3 ms that gives `m2 = 1`, `stddev_ms = 1`
+where the sum of squared deviations is 2 (√2).  The model then mirrored that recurrence and only a
+partial statement could be proved; the harness oracle kind `c05-stddev` reported it.
 -/
-/-- `m2` is the recurrence the code implements (`m2Step`), whose increment is Welford's increment
-scaled by `(n−1)/n`; on the series 1 ms, 3 ms it yields 1 where the sum of squared deviations is 2. -/
-theorem stddev_partial (ms : Nat) (os : List Outcome) :
-    (let h := os.foldl (hopStep (F := Rat) ms) Hop.default
-     (h.totalRecv, h.mean, h.m2) = (msOf (rtts os)).foldl m2Step (0, 0, 0)) ∧
-    (∀ (n : Nat) (mean x : Rat),
-      let mean' := mean + (x - mean) / ((n + 1 : Nat) : Rat)
-      (x - mean') * (x - mean') = ((n : Rat) / ((n + 1 : Nat) : Rat)) * ((x - mean) * (x - mean'))) ∧
-    (([1, 3] : List Rat).foldl m2Step (0, 0, 0)).2.2 = 1 ∧
-    (([1, 3] : List Rat).map fun x => (x - 2) * (x - 2)).sum = 2 :=
-  ⟨(num_fold ms os).1, m2_increment, m2_is_not_the_squared_deviation_sum.1,
-    m2_is_not_the_squared_deviation_sum.2.2⟩
 
 /-! ### non-vacuity -/
 
@@ -229,4 +246,5 @@ end TV.Props.C05
 #print axioms TV.Props.C05.mean_two_pass
 #print axioms TV.Props.C05.javg_two_pass
 #print axioms TV.Props.C05.welford_is_two_pass
-#print axioms TV.Props.C05.stddev_partial
+#print axioms TV.Props.C05.welford_m2_two_pass
+#print axioms TV.Props.C05.variance_two_pass
